@@ -333,6 +333,53 @@ pub fn spaces(tier: Tier) -> Vec<Space> {
             cmp(acc, case, &format!("fn=pbkdf2-{}", h.name()), json!({"hash": h.name(), "password_len": pw.len(), "salt_len": salt.len(), "iterations": iters, "out_len": outlen}), lib, &want);
         }));
     }
+    // 3b. two-argument call histories with a shifted boundary: one 12-byte string S is cut at i into (password, salt) /
+    // (key, message), the function is called, then S is cut at j != i and the function is called again. The two calls
+    // have the same concatenated bytes and (for most pairs) nothing else in common; both answers must be the reference's.
+    {
+        const S_LEN: u64 = 12;
+        v.push(Space::new("pbkdf2-boundary-shift-histories", 3 * (S_LEN + 1) * (S_LEN + 1), move |case, acc| {
+            let c = crate::engine::coords(case.idx, &[3, S_LEN + 1, S_LEN + 1]);
+            if c[1] == c[2] {
+                return;
+            }
+            let (h, code) = hs[c[0] as usize];
+            let sbytes = pattern(7, S_LEN as usize);
+            let algo = || match code {
+                0 => PBKDF2Hashes::SHA1,
+                1 => PBKDF2Hashes::SHA256,
+                _ => PBKDF2Hashes::SHA512,
+            };
+            let cut = |k: u64| (sbytes[..k as usize].to_vec(), sbytes[k as usize..].to_vec());
+            let ((p1, s1), (p2, s2)) = (cut(c[1]), cut(c[2]));
+            let mut want = rh::pbkdf2(h, &p1, &s1, 2, 40);
+            want.extend(rh::pbkdf2(h, &p2, &s2, 2, 40));
+            let lib = guard(|| {
+                let mut a = KDF::pbkdf2(&p1, Some(s1.clone()), algo(), 2, 40).get_hash().to_bytes();
+                a.extend(KDF::pbkdf2(&p2, Some(s2.clone()), algo(), 2, 40).get_hash().to_bytes());
+                a
+            });
+            cmp(acc, case, &format!("fn=pbkdf2-{}/after-call-with-shifted-boundary", h.name()), json!({"hash": h.name(), "string": hx(&sbytes), "first_cut": c[1], "second_cut": c[2], "iterations": 2, "out_len": 40}), lib, &want);
+        }));
+        v.push(Space::new("hmac-boundary-shift-histories", 6 * (S_LEN + 1) * (S_LEN + 1), move |case, acc| {
+            let c = crate::engine::coords(case.idx, &[6, S_LEN + 1, S_LEN + 1]);
+            if c[1] == c[2] {
+                return;
+            }
+            let h = rh::ALL[c[0] as usize];
+            let sbytes = pattern(7, S_LEN as usize);
+            let cut = |k: u64| (sbytes[..k as usize].to_vec(), sbytes[k as usize..].to_vec());
+            let ((k1, m1), (k2, m2)) = (cut(c[1]), cut(c[2]));
+            let mut want = rh::hmac(h, &k1, &m1);
+            want.extend(rh::hmac(h, &k2, &m2));
+            let lib = guard(|| {
+                let mut a = lib_hmac(h, &k1, &m1);
+                a.extend(lib_hmac(h, &k2, &m2));
+                a
+            });
+            cmp(acc, case, &format!("fn=hmac-{}/after-call-with-shifted-boundary", h.name()), json!({"hash": h.name(), "string": hx(&sbytes), "first_cut": c[1], "second_cut": c[2]}), lib, &want);
+        }));
+    }
     v.push(Space::new("pbkdf2-2048", 3, move |case, acc| {
         let (h, code) = hs[case.idx as usize];
         let pw = b"correct horse battery staple".to_vec();
